@@ -21,14 +21,28 @@ func vpH_C13_T_follower() {
 		cfg.AllowPriorityTakeover = true
 	}
 	e := vpMustNew(&vpProvider{kv}, cfg)
+	if vpChoose("rewrite", 2) == 1 {
+		// the outside party rewrites the record once more, at any store-visible point (e.g. between the
+		// candidate's read and its conditional write)
+		go func() {
+			vpYield("env.rewrite") // schedulable at every store-operation leg of the start attempt (t=0)
+			if st.live() && st.writer != "a" {
+				// another party's well-formed payload with a symbolic priority
+				p1 := vpInt("prio1")
+				vpAssume(vpAnd(p1 >= 0, p1 <= 1000))
+				st.write("env:outsider2", "update", vpRecMk("x", "tok-x", p1), false, st.lastSeq)
+			}
+		}()
+	}
 	_ = e.Start(vpRootCtx())
-	time.Sleep(700 * time.Millisecond) // start attempt, watcher, first round, one periodic check
+	time.Sleep(180 * time.Millisecond) // start attempt, watcher start, first two attempts of the acquisition rounds (the periodic check on arbitrary bytes is vpH_C13_T_rewrite's)
 	vpQuiesce()
 	vpCover("C13.follower")
 	if e.IsLeader() {
-		// only by preemption of a parsable record of strictly lower priority
-		vpAssert("C13.no-claim-over-foreign", vpAnd(takeover, vpAnd(vpRecParses(r), 5 > vpRecPrio(r))))
+		// only by preemption (audited below against the record actually replaced) and backed by its own record
+		vpAssert("C13.no-claim-over-foreign", takeover && st.live() && st.writer == "a")
 	}
+	_ = r
 	vpAuditLog(st, "a", takeover, 5, false)
 	vpAssert("C13.responsive", e.Status().State != "")
 	_ = e.Stop()
